@@ -12,4 +12,4 @@ func verifYield(point string) {}
 
 func verifAnnounce(h hash.Hash, ipv6 bool, port uint16) {}
 
-func verifTickers(ticker, slowTicker *time.Ticker) {}
+func verifTickers(t *Torrent, ticker, slowTicker *time.Ticker) {}
